@@ -25,13 +25,7 @@ Print Assumptions C11_carries_owner.
 (* an event dispatched on a channel changes only streams subscribed to THAT channel *)
 Theorem C11_isolation : forall c e l i st,
   nth_error l i = Some st -> subscribed c st = false -> nth_error (fst (deliver_all c e l)) i = Some st.
-Proof.
-  exact (fun c e l i st H S =>
-    eq_trans (deliver_all_pointwise c e l i)
-      (eq_ind_r (fun o => match o with Some st0 => Some (if subscribed c st0 then fst (deliver1 e st0) else st0)
-                                     | None => None end = Some st)
-                (eq_ind_r (fun b => Some (if b then fst (deliver1 e st) else st) = Some st) eq_refl S) H)).
-Qed.
+Proof. exact not_subscribed_untouched. Qed.
 Print Assumptions C11_isolation.
 
 (* an event of the wrong class is rejected with TypeError and changes nothing *)
